@@ -31,7 +31,7 @@ Section Job.
     r_csum r = None /\
     (r_stamp r <> None -> r_changed r <> None) /\
     (is_alw w g = false -> reserved (nm w g) = false) /\
-    (marked (ldw w g) = true -> r_failed r = None \/ r_failed r = Some R) /\
+    (is_alw w g = false -> marked (ldw w g) = true -> r_failed r = None \/ r_failed r = Some R) /\
     (~ In g ex -> r_ovr r = false /\
        (r_gen r = true -> exists s, r_stamp r = Some s /\
           (stamp_eqb s (read_stamp w (nm w g)) = true \/ read_stamp w (nm w g) = SMissing))).
@@ -82,7 +82,7 @@ Section Job.
         { intro Hs. rewrite Hst, L2 in Hs. rewrite Hch. apply L6. auto. }
         split.
         { intro Ha. rewrite (nm_names w0 w f Hnm). apply A3. unfold is_alw in *. now rewrite <- (nm_names w0 w f Hnm). }
-        split; [intros _; left; exact Hfl|].
+        split; [intros _ _; left; exact Hfl|].
         intro Hex. split; [rewrite Hov, L3; exact (proj1 (A5 Hex))|].
         intro Hg'. destruct (Hgen Hg') as (s0 & Hs0 & Hm0). exists s0. split; [exact Hs0|left].
         unfold read_stamp in *. cbn [putw fs set_db]. exact Hm0.
@@ -480,7 +480,7 @@ Section Job.
       + apply (rowx_ext w w' ex g Hext Hv). apply Hx. exact Hv.
       + unfold rowx. rewrite Hrow. cbn [empty_row r_csum r_stamp r_changed r_failed r_ovr r_gen].
         split; [reflexivity|]. split; [intro X; contradiction|]. split; [intros _; exact Hres|].
-        split; [intros _; now left|]. intros _. split; [reflexivity|intro X; discriminate].
+        split; [intros _ _; now left|]. intros _. split; [reflexivity|intro X; discriminate].
     - intros d Hin Hm. destruct (Hedges d Hin) as (_ & _ & _ & _ & E). auto.
     - intros x Hx'. destruct (Hu x Hx') as [A B]. split; [eapply extends_valid; eauto|].
       now rewrite (extends_nm w w' x Hext A).
@@ -655,7 +655,7 @@ Section Job.
       + destruct (Hx f Vf) as (_ & _ & A3 & _).
         unfold rowx. rewrite get_row_putw_same by exact Vf.
         rewrite is_alw_putw by exact Hname. rewrite (nm_names w _ f Hnm). rewrite putw_ld_same by exact Vf.
-        split; [exact Hcs|]. split; [exact Hsc|]. split; [exact A3|]. split; [exact Hmf|]. intro X. contradiction.
+        split; [exact Hcs|]. split; [exact Hsc|]. split; [exact A3|]. split; [intros _; exact Hmf|]. intro X. contradiction.
       + apply rowx_same with (w := w); [reflexivity|exact Hnm| |apply Hx; exact Hg].
         apply get_row_putw_other; assumption.
     - intros d Hin Hm. cbn [putw dbs set_db put_row deps] in Hin. rewrite (nm_names w _ _ Hnm). apply Hc; assumption.
@@ -1005,7 +1005,7 @@ Section Job.
       + unfold rowx. rewrite get_row_putw_same by exact Hv. rewrite is_alw_putw by exact Hname.
         rewrite (nm_names w _ g Hnm). rewrite putw_ld_same by exact Hv.
         split; [exact Hcs|]. split; [intros _; rewrite Hch; discriminate|]. split; [intros _; exact Hres|].
-        split; [intros _; now left|]. intros _. split; [exact Hov|]. intro X. rewrite Hgen in X. discriminate.
+        split; [intros _ _; now left|]. intros _. split; [exact Hov|]. intro X. rewrite Hgen in X. discriminate.
       + apply rowx_same with (w := w); [reflexivity|exact Hnm| |apply Hx; exact Hx'].
         apply get_row_putw_other; assumption.
     - intros d Hin Hm. cbn [putw dbs set_db put_row deps] in Hin. rewrite (nm_names w _ _ Hnm). apply Hc; assumption.
@@ -2036,7 +2036,7 @@ Section Job.
       assert (Hum : marked (ldw w1 f) = false).
       { destruct (marked (ldw w1 f)) eqn:Em; [|reflexivity]. exfalso.
         pose proof Jj1 as ((_ & Hmark) & Hx1 & _). destruct (Hx1 f Vf1) as (_ & _ & _ & A4 & _).
-        destruct (A4 Em) as [X|X].
+        destruct (A4 Ha1 Em) as [X|X].
         - apply Hnok. apply Hmark; auto. rewrite (ld_not_alw R w1 f Ha1). exact X.
         - pose proof (is_dirty_failed_back _ _ _ _ _ _ _ _ _ _ _ _ Ed f R X) as X0.
           unfold is_failed in Efail. assert (Ha0 : is_alw w0 f = false) by (apply not_reserved_not_alw; rewrite Nf; exact Tr).
@@ -2184,6 +2184,27 @@ Section Final.
 
   (* `redo-ifchange ts` at top level: if it exits 0, every target in ts is
      settled (with its whole recorded closure), and the run invariant holds *)
+  Theorem ifchange_step k ts w w' evs rc :
+    let R := (maxrun (dbs w) + 1)%Z in
+    (0 < R)%Z -> JINV R rk watched (fst (new_run w)) [] -> PROJ rk watched (fst (new_run w)) ->
+    (forall t, In t ts -> watched t = false /\ reserved t = false) ->
+    exec (CIfChange k ts) w = (w', OutBuild evs rc) ->
+    JINV R rk watched w' [] /\
+    (rc = 0%Z -> forall t, In t ts -> exists g, find_row (rows (dbs w')) t 1 = Some g /\ ok R w' [] g).
+  Proof.
+    intros R Rpos Hj Hp Hts H. unfold exec in H. destruct (new_run w) as [w1 R'] eqn:En.
+    assert (HR : R' = R) by (unfold new_run in En; injection En as _ <-; reflexivity). subst R'. cbn [fst] in Hj, Hp.
+    set (e := {| e_runid := R; e_target := None; e_unlocked := false; e_no_oob := false; e_keep_going := k; e_cycles := [] |}) in *.
+    destruct (build (default_fuel w1) e MIfChange ts w1) as [[[w2 ev2] rc2]|] eqn:Eb; [|discriminate].
+    injection H as <- _ <-.
+    assert (Hpre : build_pre R rk watched e [] ts w1).
+    { split; [reflexivity|]. split; [exact Hj|]. split; [exact Hp|]. split.
+      - intros t Ht. destruct (Hts t Ht) as [A B]. split; [exact A|]. split; [exact B|]. intros x [].
+      - left. reflexivity. }
+    destruct (build_rec_spec R Rpos rk watched (default_fuel w1) e [] ts w1 w2 ev2 rc2 Hpre Eb) as (wa & _ & (_ & _ & J & _) & Hok).
+    split; [exact J|exact Hok].
+  Qed.
+
   Theorem ifchange_settles k ts w w' evs :
     let R := (maxrun (dbs w) + 1)%Z in
     (0 < R)%Z -> JINV R rk watched (fst (new_run w)) [] -> PROJ rk watched (fst (new_run w)) ->
@@ -2192,17 +2213,8 @@ Section Final.
     JINV R rk watched w' [] /\
     forall t, In t ts -> exists g, find_row (rows (dbs w')) t 1 = Some g /\ ok R w' [] g.
   Proof.
-    intros R Rpos Hj Hp Hts H. unfold exec in H. destruct (new_run w) as [w1 R'] eqn:En.
-    assert (HR : R' = R) by (unfold new_run in En; injection En as _ <-; reflexivity). subst R'. cbn [fst] in Hj, Hp.
-    set (e := {| e_runid := R; e_target := None; e_unlocked := false; e_no_oob := false; e_keep_going := k; e_cycles := [] |}) in *.
-    destruct (build (default_fuel w1) e MIfChange ts w1) as [[[w2 ev2] rc2]|] eqn:Eb; [|discriminate].
-    injection H as <- _ ->.
-    assert (Hpre : build_pre R rk watched e [] ts w1).
-    { split; [reflexivity|]. split; [exact Hj|]. split; [exact Hp|]. split.
-      - intros t Ht. destruct (Hts t Ht) as [A B]. split; [exact A|]. split; [exact B|]. intros x [].
-      - left. reflexivity. }
-    destruct (build_rec_spec R Rpos rk watched (default_fuel w1) e [] ts w1 w2 ev2 0%Z Hpre Eb) as (wa & _ & (_ & _ & J & _) & Hok).
-    split; [exact J|]. exact (Hok eq_refl).
+    intros R Rpos Hj Hp Hts H. destruct (ifchange_step k ts w w' evs 0%Z Rpos Hj Hp Hts H) as [J Hok].
+    split; [exact J|exact (Hok eq_refl)].
   Qed.
 
   (* ---------------------------------------------------------------- decidable premises *)
@@ -2238,9 +2250,7 @@ Section Final.
     split.
     { intro Ha. rewrite Ha in *. cbn [orb] in *. match goal with X : negb (reserved _) = true |- _ => now apply negb_true_iff in X end. }
     split.
-    { intro Hm. destruct (is_alw w g) eqn:Ea.
-      - destruct (r_failed (get_row (dbs w) g)); [discriminate|now left].
-      - rewrite (Hfr g Hg Ea) in Hm. discriminate. }
+    { intros Ea Hm. rewrite (Hfr g Hg Ea) in Hm. discriminate. }
     intros _. split; [match goal with X : negb (r_ovr _) = true |- _ => now apply negb_true_iff in X end|].
     intro Hgen. match goal with X : negb (r_gen _) || _ = true |- _ => rewrite Hgen in X; cbn [negb orb] in X;
       destruct (r_stamp (get_row (dbs w) g)) as [s0|]; [|discriminate]; exists s0; split; [reflexivity|];
